@@ -429,6 +429,9 @@ func checkC16(c *core.Ctx) {
 			}
 		}
 		sym := []string{uc.Name, uc.Display}[r.Intn(2)]
+		if uc.Name == f.nameAlias {
+			sym = uc.Name // its display symbol is the name of a built-in and keeps denoting that
+		}
 		p := model.Piece{Inst: []model.Instance{{Chord: &model.ChordSpec{Deg: theory.Interval{N: 1, Q: theory.Perfect}, Symbol: sym}, Values: one()}}}
 		doc := c.Scratch.File("in.yml", p.YAML(model.YAMLStyle{}))
 		var args []string
@@ -504,7 +507,11 @@ func checkC16(c *core.Ctx) {
 				return
 			}
 		}
-		p := model.Piece{Inst: []model.Instance{{Chord: &model.ChordSpec{Deg: theory.Interval{N: 1, Q: theory.Perfect}, Symbol: uc.Display}, Values: one()}}}
+		msym := uc.Display
+		if uc.Name == f.nameAlias {
+			msym = uc.Name
+		}
+		p := model.Piece{Inst: []model.Instance{{Chord: &model.ChordSpec{Deg: theory.Interval{N: 1, Q: theory.Perfect}, Symbol: msym}, Values: one()}}}
 		res := c.Crd.Run(runner.Opt{Stdin: p.YAML(model.YAMLStyle{}), NoFile: 48}, append([]string{"write"}, args...)...)
 		c.Eval(1)
 		if infra(c, res) {
@@ -531,7 +538,7 @@ func checkC16(c *core.Ctx) {
 			exp = append(exp, 60+s)
 		}
 		if !eqInts(sortedInts(got), sortedInts(exp)) {
-			c.Violate("manyfiles", i, "manyfiles:notes", fmt.Sprintf("dictionary in %d files: chord %q sounds %v, defined as %v", total, uc.Display, sortedInts(got), sortedInts(exp)), det)
+			c.Violate("manyfiles", i, "manyfiles:notes", fmt.Sprintf("dictionary in %d files: chord %q sounds %v, defined as %v", total, msym, sortedInts(got), sortedInts(exp)), det)
 			return
 		}
 		c.Nontrivial(fmt.Sprintf("manyfiles%d", i))
@@ -557,6 +564,11 @@ type forest struct {
 	sizes  map[string]int
 	// long name of the built-in whose display symbol a user chord took over ("" = none)
 	takenOver string
+	// name of a user chord whose display symbol is spelled like the long name of a built-in ("" = none):
+	// that symbol is not usable for the user chord (the name wins), the chord is reachable by its own name
+	nameAlias string
+	// Sixth was defined again with the display symbol m6
+	redefSixth bool
 }
 
 func genForest(r *rand.Rand, tag string) forest {
@@ -655,7 +667,7 @@ func genForest(r *rand.Rand, tag string) forest {
 	if r.Intn(2) == 0 {
 		var disp []string
 		for n, d := range theory.ChordNames {
-			if d != "" && d != "m7b5" && d != "sus4" && d != "add9" && d != "m7" {
+			if d != "" && d != "m7b5" && d != "sus4" && d != "add9" && d != "m7" && d != "6" && d != "m6" {
 				disp = append(disp, n)
 			}
 		}
@@ -667,6 +679,32 @@ func genForest(r *rand.Rand, tag string) forest {
 		f.depth[uc.Name] = 1
 		f.chords = append(f.chords, uc)
 		f.takenOver = long
+	}
+	// a built-in name defined again under the display symbol of ANOTHER built-in that is defined after it
+	// (Sixth comes before MinorSixth in the built-in list): the re-definition is the last definition of both
+	// the name and the symbol, so "Sixth" and "m6" are the user's chord; "6", the symbol of the replaced
+	// chord, is gone with it; "MinorSixth" keeps denoting the built-in
+	if r.Intn(3) == 0 {
+		a := f.attrs[r.Intn(len(f.attrs))]
+		uc := userChord{Name: "Sixth", Display: "m6", Attrs: []string{"Perfect1", a.Name}}
+		f.semis[uc.Name] = []int{0, f.sizes[a.Name]}
+		f.depth[uc.Name] = 1
+		f.chords = append(f.chords, uc)
+		f.redefSixth = true
+	}
+	// a fresh chord whose display symbol is spelled like the long NAME of a built-in: the name keeps denoting the
+	// built-in (names win over display symbols), and so do the symbols of the built-ins that extend it
+	if r.Intn(3) == 0 {
+		victim := []string{"MinorTriad", "MajorSeventh", "DiminishedTriad", "AugmentedTriad"}[r.Intn(4)]
+		if victim == f.takenOver {
+			victim = "SuspendedFourth" // never taken over (the forest refers to sus4)
+		}
+		a := f.attrs[r.Intn(len(f.attrs))]
+		uc := userChord{Name: "Zalias" + tag, Display: victim, Attrs: []string{"Perfect1", a.Name}}
+		f.semis[uc.Name] = []int{0, f.sizes[a.Name]}
+		f.depth[uc.Name] = 1
+		f.chords = append(f.chords, uc)
+		f.nameAlias = uc.Name
 	}
 	return f
 }
@@ -750,6 +788,23 @@ func userForestCase(c *core.Ctx, i int, r *rand.Rand) {
 			continue
 		}
 		for _, key := range []string{uc.Name, uc.Display} {
+			if uc.Name == f.nameAlias && key == uc.Display {
+				// this spelling is the name of a built-in: it must keep sounding the built-in
+				want, _ := theory.ChordSemis(key)
+				exp := []int{48}
+				for _, s := range want {
+					exp = append(exp, 60+s)
+				}
+				if k, _, why, _ := soundedKeys(c, key, args); why == "" && !eqInts(sortedInts(k), sortedInts(exp)) {
+					c.Violate("forest", i, sig+":name-shadowed", fmt.Sprintf("a user chord has the display symbol %q, which is the name of a built-in; that name now sounds %v, the built-in is %v", key, sortedInts(k), exp), desc)
+					return
+				}
+				if k, _, why, _ := soundedKeys(c, theory.ChordNames[key], args); why == "" && !eqInts(sortedInts(k), sortedInts(exp)) {
+					c.Violate("forest", i, sig+":name-shadowed-symbol", fmt.Sprintf("a user chord has the display symbol %q (the name of a built-in); the built-in's own symbol %q now sounds %v instead of %v", key, theory.ChordNames[key], sortedInts(k), exp), desc)
+					return
+				}
+				continue
+			}
 			keysGot, _, why, det := soundedKeys(c, key, args)
 			if why == "infra" {
 				return
@@ -900,7 +955,13 @@ func brokenDictCase(c *core.Ctx, i int, r *rand.Rand) {
 		append([]string{"write", "parse"}, args...),
 		append([]string{"info", "chord", "describe", "-t", "C_" + sym}, args...),
 		append([]string{"info", "attr", "describe", "-t", "Major3", "-r", "D"}, args...),
+		append([]string{"info", "chord", "list"}, args...),
+		append([]string{"info", "attr", "list"}, args...),
 	}
+	// an entry that a later entry of the same name replaces is not part of the dictionary any more: whether the
+	// dictionary is inconsistent then depends on which of the two comes last, so for those kinds only the form
+	// of the outcome is judged (no crash, no hang)
+	shadowed := strings.HasPrefix(kind, "shadowed")
 	for ci, cmd := range cmds {
 		res := run(c, doc, cmd...)
 		c.Eval(1)
@@ -912,7 +973,7 @@ func brokenDictCase(c *core.Ctx, i int, r *rand.Rand) {
 			c.Violate("broken", i, sig+":abnormal", fmt.Sprintf("inconsistent dictionary (%s) makes `crd %s` %s", kind, strings.Join(cmd[:2], " "), a), mergeMaps(desc, map[string]any{"run": obs(res)}))
 			return
 		}
-		if res.OK() {
+		if res.OK() && !shadowed {
 			c.Violate("broken", i, sig+":accepted", fmt.Sprintf("inconsistent dictionary (%s, broken chord %s) is accepted by `crd %s`", kind, map[bool]string{true: "used", false: "not used"}[used], strings.Join(cmd[:2], " ")), mergeMaps(desc, map[string]any{"run": obs(res)}))
 			return
 		}
